@@ -46,7 +46,7 @@ def cursor_of(stmts, bufname="buf"):
                 inner = strip(i)
                 while inner.get("k") == "Unary" and inner.get("op") == "Deref":
                     inner = strip(inner["e"])
-                if inner.get("k") == "Path" and inner.get("name") == bufname:
+                if inner.get("k") == "Path" and inner.get("res") == "local" and (inner.get("ty") or "") == "std::vec::Vec<u8>":
                     return s["pat"]["name"]
     return None
 
